@@ -1,6 +1,6 @@
 """Correspondence stream `normalize` (C15): normalize.py / graph_game.py vs ICG.Model.Normalize.
 
-Two sub-streams.
+Three sub-streams (two exact ones, compared as strings, and a float one).
 
 *exact*  — integer / dyadic superadditive games (closure construction, non-zero and negative singletons,
   additive, nearly additive = additive + a power-of-two bonus on a few coalitions) whose surplus
@@ -11,6 +11,24 @@ Two sub-streams.
   (`norm icg`, `norm graph`, `norm denorm`, `norm gdenorm`, and the closed form `norm closed`).
   ≈ 10 % malformed: partially known tables (`ValueError` from `get_value(s)`), too-short singleton info
   (`IndexError` in `denormalize_game`); only the error kind is compared.
+
+*tolerance window* (exact) — the repaired `_normalize_icg` does not scale when
+  `np.isclose(surplus + Σ, Σ, rtol=1e-9, atol=0)` (Σ = sum of the singleton values), in exact arithmetic
+  `|surplus| ≤ Fraction(1e-9)·|Σ|`.  Games `v(c) = Σ_{i∈c} a_i + s·u(c)` with integer / dyadic singletons `a_i` of
+  many magnitudes and signs (|Σ| from ~1 to ~2^46, also cancelling to 0), `u` a dyadic convex combination of
+  unanimity games (superadditive, zero singletons, `u(N) = 1`) and the surplus `s ≥ 0` placed relative to the
+  threshold `Fraction(1e-9)·|Σ|`: 0, deep inside, just below, the last representable value at-or-below it, the
+  first one above it, just above, far above (power of two).  A case is kept only if EVERY arithmetic operation of
+  `normalize_game` + `denormalize_game` on it has float64 operands and an exactly representable exact result
+  (`float_exact_trace`: then the correctly rounded float run IS the exact run — in particular
+  `surplus + Σ − Σ` is the exact surplus), and if the one inexact operation, the float product `1e-9*|Σ|`, puts
+  the surplus on the same side as the exact product does.  The real answers are compared as strings with the
+  model (`norm icg`, every second time with the tolerance passed explicitly as `Fraction(1e-9)`, `norm closed`,
+  `norm denorm`).  Oracle: a game inside the window `0 < s ≤ Fraction(1e-9)·|Σ|` is out of the property's scope
+  (the code deliberately returns the unscaled game there; counted as `window:in`, and
+  `window:in:roundtrip-off-{within,beyond}-1e-9` when `denormalize_game` then does not restore the values — in
+  exact arithmetic it cannot unless s = 1, see `ICG.C15.denormalize_window`; the `norm denorm` line is compared
+  only when that computation is float-exact as well); outside the window the usual clauses with no tolerance at all.
 
 *float*  — every key of the live `GENERATORS` registry (except `convex`; a generator that raises is out of
   C15's scope and only counted), n = 3..5, seeds from `rnd`; graph games in both representations.  No
@@ -42,6 +60,7 @@ TOL = 1e-9
 # seeds known to give (numerically) additive float games: always part of the float sub-stream
 PINNED = [("xos3", 3, 49), ("xos2", 3, 5), ("xos2", 4, 0)]
 KEY_RESIDUE = "normalize:float-additive-residue"
+RTOL = Fraction(1e-9)       # exact value of the float literal `1e-9` in `_normalize_icg` (= ICG.Norm.defaultRtol)
 
 
 # ------------------------------------------------------------------------------------------------
@@ -250,6 +269,134 @@ def exact_matrix(n, rnd):
     return kind, M
 
 
+# ------------------------------------------------------------------------------------------------
+# the tolerance window of the repaired `_normalize_icg`
+
+def float_exact_trace(n, v):
+    """Follow every arithmetic operation of `normalize_game` and `denormalize_game` on the complete table of the
+    exact values `v` in exact arithmetic and check that each operand and each exact result is a float64.  IEEE
+    arithmetic is correctly rounded, so then the float run produces exactly these numbers.  The only inexact
+    operation is the float product `1e-9 * |Σ|` inside `np.isclose`; it is evaluated in float here, and the case is
+    rejected if it puts the surplus on the other side than the exact product `Fraction(1e-9)·|Σ|` does.
+
+    Returns (reason, additive, denorm_exact): reason None = every step of `normalize_game` is exact; additive =
+    the exact verdict of the guard; denorm_exact = every step of `denormalize_game` on the result is exact too
+    (inside the window it forms `w(c)·w(N)`, a product with twice the bits, which often is not).
+    """
+    N = 2 ** n
+    ok = common_is_exact
+    if not all(ok(x) for x in v):
+        return "input", None, False
+    singles = [v[1 << i] for i in range(n)]
+    total = Fraction(0)
+    for x in singles:                       # np.sum: (pairwise) float additions; all partial sums must be exact
+        total += x
+        if not ok(total):
+            return "sum", None, False
+    if not all(ok(sum(singles[i:j], Fraction(0))) for i in range(n) for j in range(i + 1, n + 1)):
+        return "sum", None, False
+    surplus = v[N - 1] - total
+    if not ok(surplus) or not ok(surplus + total) or (surplus + total) - total != surplus:
+        return "surplus", None, False
+    # the float computation of the guard, literally, and its comparison with the exact one
+    fs, ft = float(surplus), float(total)
+    if Fraction((fs + ft) - ft) != surplus:
+        return "surplus", None, False
+    additive_float = bool(abs((fs + ft) - ft) <= 0.0 + 1e-9 * abs(ft))
+    additive = abs(surplus) <= RTOL * abs(total)
+    if additive_float != additive:
+        return "threshold-rounding", None, False
+    w = list(v)
+    for i in range(n):
+        sv = w[1 << i]
+        for c in range(N):
+            if c >> i & 1:
+                w[c] = w[c] - sv
+                if not ok(w[c]):
+                    return "subtract", None, False
+    g = w[N - 1]
+    if g != 0 and not additive:
+        w = [x / g for x in w]
+        if not all(ok(x) for x in w):
+            return "divide", None, False
+    for c in range(N):
+        val = w[c] * surplus
+        if not ok(val):
+            return None, additive, False
+        for i in range(n):
+            if c >> i & 1:
+                val += singles[i]
+                if not ok(val):
+                    return None, additive, False
+    return None, additive, True
+
+
+def common_is_exact(x):
+    from common import is_exact_float
+    return is_exact_float(Fraction(x))
+
+
+WINDOW_POSITIONS = ["zero", "deep", "below", "at-", "at+", "above", "far"]
+
+
+def window_game(n, rnd, pos):
+    """(label, values) — `v(c) = Σ_{i∈c} a_i + s·u(c)` with the surplus `s` placed at `pos` relative to the
+    threshold `Fraction(1e-9)·|Σ a_i|`; see the module docstring."""
+    N = 2 ** n
+    skind = rnd.choice(["pow2", "eqpow2", "int", "int", "mixed", "cancel", "dyadic", "small"])
+    if skind == "pow2":
+        a = [Fraction(2) ** rnd.randint(28, 46) for _ in range(n)]
+    elif skind == "eqpow2":
+        a = [Fraction(2) ** rnd.randint(0, 46)] * n
+    elif skind == "int":
+        top = rnd.choice([12, 24, 36, 46])
+        a = [Fraction(rnd.randint(2 ** (top - 2), 2 ** top)) for _ in range(n)]
+    elif skind == "mixed":
+        top = rnd.choice([12, 30, 44])
+        a = [Fraction(rnd.choice([-1, 1, 1]) * rnd.randint(2 ** (top - 3), 2 ** top)) for _ in range(n)]
+    elif skind == "cancel":                  # Σ cancels to something small (or to 0: the window is then {0})
+        top = rnd.choice([20, 40])
+        a = [Fraction(rnd.randint(2 ** (top - 2), 2 ** top)) for _ in range(n - 1)]
+        a.append(-sum(a, Fraction(0)) + rnd.choice([0, 0, 1, 2 ** 10, 2 ** (top - 4)]))
+        rnd.shuffle(a)
+    elif skind == "dyadic":
+        a = [Fraction(rnd.randint(1, 2 ** 20), 2 ** rnd.randint(1, 10)) for _ in range(n)]
+    else:
+        a = [Fraction(rnd.randint(0, 1000)) for _ in range(n)]
+    total = sum(a, Fraction(0))
+    thr = RTOL * abs(total)
+    # shape: dyadic convex combination of unanimity games on coalitions with at least two players
+    big = [c for c in range(N) if G.popcount(c) >= 2]
+    j = 0 if pos in ("at+", "above") or rnd.random() < 0.4 else rnd.choice([1, 2, 3])
+    parts = 2 ** j
+    ts = [rnd.choice(big) for _ in range(parts)]
+    u = [Fraction(sum(1 for t in ts if t & c == t), parts) for c in range(N)]
+    u[N - 1] = Fraction(1)
+    # granularity: every partial sum of |a_i| plus the surplus stays below 2^E; s is a multiple of 2^(E-53+j)
+    mag = sum((abs(x) for x in a), Fraction(0)) + 2 * thr + 1
+    E = 0
+    while Fraction(2) ** E <= 2 * mag:
+        E += 1
+    gran = Fraction(2) ** (E - 53 + j)
+    steps = thr // gran                       # number of grid points in (0, thr]
+    if pos == "zero":
+        s = Fraction(0)
+    elif pos == "deep":
+        s = gran * rnd.randint(1, max(1, int(steps) // 2 ** rnd.randint(4, 20)))
+    elif pos == "below":
+        s = gran * rnd.randint(max(1, int(steps) // 2), max(1, int(steps)))
+    elif pos == "at-":
+        s = gran * steps
+    elif pos == "at+":
+        s = gran * (steps + 1)
+    elif pos == "above":
+        s = gran * rnd.randint(int(steps) + 1, 2 * int(steps) + 2)
+    else:
+        s = pow2_at_least(max(4 * thr, gran * 4)) * rnd.choice([1, 1, 2, 1024])
+    v = [sum((a[i] for i in range(n) if c >> i & 1), Fraction(0)) + s * u[c] for c in range(N)]
+    return f"{skind}/j{j}", v, s, thr
+
+
 def table_answer(info, g):
     return f"I={rs(info[0])} S={rlist(info[1])} L={rlist(g.get_lower_bounds())} U={rlist(g.get_upper_bounds())}"
 
@@ -368,6 +515,79 @@ def run(tier: str, budget: Budget, rnd, arg) -> StreamResult:
                        {"n": n, "g": rs(gval), "singles": [rs(x) for x in singles], "values": [rs(x) for x in v]})
             res.count(f"exact:denorm-short:{'ok' if not ans.startswith('err') else ans}")
         res.evaluations += 1
+
+    # ---------------------------------------------------------------- tolerance-window sub-stream (exact)
+    n_window = 420 if tier == "quick" else 12000
+    worst_rt = Fraction(0)
+    for k in range(n_window):
+        if budget.left() < budget.seconds * 0.35:
+            res.notes.append(f"tolerance-window sub-stream stopped after {k} cases")
+            break
+        n = rnd.choice([2, 2, 3, 3, 4, 5])
+        N = 2 ** n
+        pos = WINDOW_POSITIONS[k % len(WINDOW_POSITIONS)]
+        label, v, s, thr = window_game(n, rnd, pos)
+        reason, additive, denorm_exact = float_exact_trace(n, v)
+        where = "zero" if s == 0 else ("in" if s <= thr else "out")
+        if reason is None and not denorm_exact and where != "in":
+            reason = "denormalize"          # outside the window the oracle checks the round trip with no tolerance
+        if reason is not None:
+            res.count(f"window:dropped:not-float-exact:{reason}")
+            continue
+        assert additive == (where != "out")
+        fv = [float(x) for x in v]
+        g = table_game(n, fv)
+        ctx = {"n": n, "values": [rs(x) for x in v], "kind": f"window:{pos}:{label}", "surplus": rs(s),
+               "threshold": rs(thr)}
+        try:
+            info = NZ.normalize_game(g)
+            ans = table_answer(info, g)
+        except Exception as e:    # a full table never raises
+            ans, info = err_kind(e), None
+            res.violation(f"normalize_game raised {type(e).__name__} on a complete game",
+                          {"kind": "values", "n": n, "values": fv, "values_exact": [rs(x) for x in v]},
+                          key="normalize:raises")
+        line = f"norm icg {n} {rlist(v)}" + (f" {rs(RTOL)}" if k % 2 else "")
+        script.add(line, ans, ctx)
+        res.count(f"window:{where}")
+        res.count(f"window:position:{pos}:{where}")
+        if info is not None:
+            normed = [frac(x) for x in g.get_values()]
+            script.add(f"norm closed {n} {rlist(v)}", f"V={rlist(normed)}", ctx)
+            scaled = where == "out"
+            if s != 1 and (normed[N - 1] == 1) != scaled:
+                res.count("window:code-branch-differs-from-exact-window")      # would also show up as a disagreement
+            NZ.denormalize_game(g, info)
+            back = [frac(x) for x in g.get_lower_bounds()]
+            if denorm_exact:
+                script.add(f"norm denorm {n} {rs(info[0])} {rlist(info[1])} {rlist(normed)}",
+                           f"L={rlist(back)} U={rlist(g.get_upper_bounds())}", ctx)
+            else:
+                res.count("window:in:denormalize-not-float-exact(not compared)")
+            if where == "in":
+                # out of the property's scope: the unscaled game is returned on purpose
+                scale = max(abs(x) for x in v)
+                err = max(abs(b - x) for b, x in zip(back, v))
+                if err > Fraction(TOL) * scale:
+                    res.count("window:in:roundtrip-off-beyond-1e-9")
+                    worst_rt = max(worst_rt, err / scale)
+                elif err:
+                    res.count("window:in:roundtrip-off-within-1e-9")
+            else:
+                report(res, n, fv, None, oracle(n, fv, exact=True), f"window:{pos}:{label}")
+                if n >= 3 and s != 0 and any(v[1 << i] != 0 for i in range(n)) and len(set(normed)) >= 3:
+                    key = ("w", tuple(v))
+                    if key not in seen:
+                        seen.add(key)
+                        res.nontrivial.add(key)
+        if k < 14:
+            res.sample({"n": n, "kind": ctx["kind"], "values": ctx["values"], "surplus/threshold":
+                        (float(s / thr) if thr else None), "answer": ans}, limit=6)
+        res.evaluations += 1
+    if worst_rt:
+        res.notes.append("inside the tolerance window 0 < surplus <= Fraction(1e-9)*|sum of singletons| (out of scope) "
+                         "denormalize_game does not restore the game: largest error / max|value| seen = "
+                         f"{float(worst_rt):.3g}")
 
     # ---------------------------------------------------------------- float sub-stream
     keys = [k for k in GENERATORS if k != "convex"]
